@@ -92,6 +92,20 @@ def c18_nontrivial(inp, out):
     return isinstance(o.get("out"), dict) and len(o.get("S") or []) >= 1 and len(o.get("T") or []) >= 2
 
 
+def c01_classify(inp, out):
+    f = inp.split("|")[0].split(",")
+    ks = ["packer:" + f[0], "kt:" + f[1], "enc:" + f[2], "nrec:" + f[3], "payload:" + f[4], "kid:" + f[5]]
+    m = inp.split("|")[1].split(":")
+    ks.append("mut:" + m[0] + (":" + m[1] if len(m) > 1 and m[0] in ("flip", "trunc", "splice", "hdr", "unprot") else ""))
+    ks.append("pack:" + out.split(" ")[0])
+    for w in out.split(" "):
+        if w.startswith("mut=") or w.startswith("changed="):
+            ks.append(w)
+        if "/" in w:
+            ks.append("mutated:" + ("fail" if w.endswith("/fail") else "same-or-ok"))
+    return ks
+
+
 PROPS = {
     "C11": {
         "lean_files": ["AriesVerif/C11/Spec.lean", "AriesVerif/C11/Model.lean", "AriesVerif/C11/Props.lean",
@@ -190,5 +204,34 @@ PROPS = {
         "trusted_base": ["SHA-2 and Ed25519 (ideal: digests are replaced by the index of the disclosure that hashes to them)",
                          "go-jose / encoding/json parsing; json.Number values are normalised to JSON numbers (C18-F3)"],
         "assumptions": ["claims without null members and without empty arrays / objects (C18-F1, C18-F2 record what happens otherwise)"],
+    },
+    "C01": {
+        "lean_files": ["AriesVerif/C01/Model.lean", "AriesVerif/C01/Props.lean", "AriesVerif/C01/Drv.lean"],
+        "lake_targets": ["AriesVerif"],
+        "classify": c01_classify,
+        "nontrivial": lambda inp, out: out.count("ok:1") >= 1,
+        "thorough_seeds": 2,
+        "case_timeout": 120,
+        "rule": "configurations packer (JWE authcrypt / anoncrypt, legacy authcrypt / anoncrypt) x key type (X25519, P-256/384/521, "
+                "Ed25519) x content encryption (A256GCM, XC20P, 4 CBC-HMAC variants) x 1-4 recipients x payload (empty, 1, block "
+                "boundaries +-1, JSON, 255, 1000 bytes) x kid style (did:key, DID-document keyAgreement ids with 1-3 entries); every "
+                "party (sender, each recipient, an outsider) has its OWN KMS and unpacks; non-trivial = a recipient recovered the payload",
+        "trusted_base": ["Tink / go-jose / NaCl / chacha20poly1305 / AES (ideal: symbolic terms)", "did:key and JWK codecs (C16)"],
+        "assumptions": ["N1 / N2: configurations in which Pack itself refuses are modelled as pack failures (DESIGN.md C01)"],
+    },
+    "C02": {
+        "lean_files": ["AriesVerif/C01/Model.lean", "AriesVerif/C02/Props.lean", "AriesVerif/C01/Drv.lean"],
+        "lake_targets": ["AriesVerif"],
+        "classify": c01_classify,
+        "nontrivial": lambda inp, out: "mut=applied" in out and out.count("ok:1") >= 1,
+        "thorough_seeds": 2,
+        "case_timeout": 120,
+        "rule": "envelopes of the C01 generator x one mutation: base64 character flip / truncation at a position of protected, iv, "
+                "ciphertext, tag, a recipient's encrypted_key / kid / (legacy) sender / iv; edit of a protected header member (alg, enc, "
+                "kid, skid, apu, apv, typ, cty, epk); splice of a field from a second envelope of the same parties; drop / duplicate / "
+                "swap recipients; compact -> JSON re-serialisation; added unprotected header; every party unpacks original and mutant; "
+                "non-trivial = the mutation applied to an envelope that a recipient could read",
+        "trusted_base": ["Tink / go-jose / NaCl / chacha20poly1305 / AES (ideal)", "encoding/base64 decides whether decoded bytes changed"],
+        "assumptions": ["the model does not predict fail-vs-same per mutation; the oracle requires fail-or-same, and fail for authenticated fields"],
     },
 }
